@@ -1,6 +1,6 @@
 SPECIFICATION Spec
 CONSTANTS
-  OPS = {"create1", "create1json", "create2", "parse", "boot", "cache", "reuse1"}
+  OPS = {"create1", "create1json", "create2", "parse", "boot", "cache", "cachenv", "reuse1"}
   MAXLEN = 4
   EMIT = TRUE
 INVARIANT SameKeySameInputs
